@@ -42,8 +42,8 @@ type Plan struct {
 
 var faults = []string{"", "", "blindsig-flip", "blindsig-zero", "blindsig-one", "blindsig-Nminus1", "blindsig-N", "blindsig-short", "blindsig-long",
 	"blinded-N", "blinded-Nplus1", "blinded-short", "blinded-long", "blinded-zero",
-	"sig-flip", "sig-zero", "sig-one", "sig-Nminus1", "sig-N", "sig-Nplus1", "sig-short", "sig-long", "msg-alter", "meta-alter",
-	"two-blinds", "entropy-error", "retry-after-bad-blindsig"}
+	"sig-flip", "sig-zero", "sig-one", "sig-Nminus1", "sig-N", "sig-Nplus1", "sig-plusN", "sig-short", "sig-long", "msg-alter", "meta-alter",
+	"blindsig-plusN", "two-blinds", "entropy-error", "retry-after-bad-blindsig"}
 
 func gen(r *core.PRNG, tier string) any {
 	p := &Plan{Seed: r.Uint64(), MsgLen: r.EdgeLen(100, 0, 1, 48), MetaLen: r.EdgeLen(40, 0, 1), Pos: r.Intn(1 << 16)}
@@ -220,6 +220,62 @@ func exec(planJSON []byte, run *core.Run) {
 		run.Fault("history:objects-reused-metadata-buffer-refilled")
 	}
 
+	// aliasing: the caller keeps its metadata in a larger frame; the slice it hands over has
+	// spare capacity holding live data, which nothing may touch
+	if pb {
+		frame := make([]byte, len(meta)+8)
+		copy(frame, meta)
+		for i := len(meta); i < len(frame); i++ {
+			frame[i] = 0xa5
+		}
+		meta = frame[:len(meta)]
+		run.Fault("aliasing:metadata-slice-with-live-spare-capacity")
+		defer func() {
+			for i := len(meta); i < len(frame); i++ {
+				if frame[i] != 0xa5 {
+					run.Violate(comp, "modifies-caller-buffer-beyond-metadata", "byte %d after the %d-byte metadata slice in the caller's frame changed from a5 to %02x", i-len(meta), len(meta), frame[i])
+					return
+				}
+			}
+		}()
+	}
+	// entropy seam: a call that is handed a randomness source takes all its randomness from it;
+	// the process-wide source is replaced by a tripwire for the duration of the call
+	withTripwire := func(what string, f func()) bool {
+		keep := rand.Reader
+		trip := core.NewStream(p.Seed + 999)
+		rand.Reader = trip
+		f()
+		rand.Reader = keep
+		if trip.Calls > 0 {
+			run.Violate(comp+"."+what, "reads-process-wide-entropy-instead-of-the-supplied-reader", "%s was handed a randomness source but also read %d bytes from crypto/rand.Reader", what, trip.Served)
+			return false
+		}
+		return true
+	}
+	if p.Seed%2 == 0 {
+		run.Fault("entropy:explicit-reader-with-tripwire-on-global")
+		var berr error
+		ok := true
+		if pb {
+			ok = withTripwire("Blind", func() { _, _, berr = pverifier.Blind(core.NewStream(p.Seed+77), msg, meta) })
+		} else {
+			ok = withTripwire("Prepare+Blind", func() {
+				var pm []byte
+				if pm, berr = client.Prepare(core.NewStream(p.Seed+78), msg); berr == nil {
+					_, _, berr = client.Blind(core.NewStream(p.Seed+77), pm)
+				}
+			})
+		}
+		if !ok {
+			return
+		}
+		if berr != nil {
+			run.Violate(comp+".Blind", "error", "with a working randomness source: %v", berr)
+			return
+		}
+	}
+
 	// blind: returns blinded message and a finaliser
 	type session struct {
 		blinded  []byte
@@ -358,9 +414,16 @@ func exec(planJSON []byte, run *core.Run) {
 
 	// --- faults on the blind signature ---
 	switch p.Fault {
-	case "blindsig-flip", "blindsig-zero", "blindsig-one", "blindsig-Nminus1", "blindsig-N", "blindsig-short", "blindsig-long", "retry-after-bad-blindsig":
+	case "blindsig-flip", "blindsig-zero", "blindsig-one", "blindsig-Nminus1", "blindsig-N", "blindsig-plusN", "blindsig-short", "blindsig-long", "retry-after-bad-blindsig":
 		bad := append([]byte{}, bs...)
 		switch p.Fault {
+		case "blindsig-plusN":
+			// another representative of the same residue: the blind signature is altered, finalisation must fail
+			v := new(big.Int).Add(new(big.Int).SetBytes(bad), N)
+			if (v.BitLen()+7)/8 > k {
+				break
+			}
+			bad = v.FillBytes(make([]byte, k))
 		case "blindsig-flip", "retry-after-bad-blindsig":
 			b := p.Pos % (len(bad) * 8)
 			bad[b/8] ^= 1 << (b % 8)
@@ -376,6 +439,9 @@ func exec(planJSON []byte, run *core.Run) {
 			bad = bad[:k-1]
 		case "blindsig-long":
 			bad = append(bad, 0)
+		}
+		if bytes.Equal(bad, bs) {
+			break // the alteration does not apply to this key size
 		}
 		run.Fault("transport:" + p.Fault)
 		var sig []byte
@@ -468,12 +534,19 @@ func exec(planJSON []byte, run *core.Run) {
 			run.Violate(comp, "signature-depends-on-blinding-factor", "same prepared message and salt, two blinds: %x… vs %x…", sig[:8], sig2[:8])
 		}
 		return
-	case "sig-flip", "sig-zero", "sig-one", "sig-Nminus1", "sig-N", "sig-Nplus1", "sig-short", "sig-long", "msg-alter", "meta-alter":
+	case "sig-flip", "sig-zero", "sig-one", "sig-Nminus1", "sig-N", "sig-Nplus1", "sig-plusN", "sig-short", "sig-long", "msg-alter", "meta-alter":
 		vm, vmd, vs := append([]byte{}, s1.prepared...), append([]byte{}, meta...), append([]byte{}, sig...)
 		switch p.Fault {
 		case "sig-flip":
 			b := p.Pos % (len(vs) * 8)
 			vs[b/8] ^= 1 << (b % 8)
+		case "sig-plusN":
+			// the same residue, another representative: s + N (fits in k bytes for 8k+1-bit moduli)
+			v := new(big.Int).Add(new(big.Int).SetBytes(vs), N)
+			if (v.BitLen()+7)/8 > k {
+				return
+			}
+			vs = v.FillBytes(make([]byte, k))
 		case "sig-short":
 			vs = vs[:k-1]
 		case "sig-long":
